@@ -60,6 +60,22 @@ theorem infra_loops_and_wrappers :
     Skeleton.current.ioWrappersNonBlocking = true ∧ Skeleton.current.reqFrameFreshPerIteration = true ∧
     Skeleton.current.respFrameFreshPerIteration = true := by decide
 
+/-- The stream adapter (`LinkStream`): the decoder hands EVERY non-nil member of an envelope on (request and response
+    independently), guards each hand-off with the link's context, declares a fresh envelope per frame, and closes its
+    done signal exactly once per exit. -/
+theorem infra_stream_decoder :
+    Skeleton.current.stDecoderHandsRequests = true ∧ Skeleton.current.stDecoderHandsResponses = true ∧
+    Skeleton.current.stHandoffGuarded = true ∧ Skeleton.current.stAbortClosesDone = true ∧
+    Skeleton.current.stDoneClosedOncePerExit = true ∧ Skeleton.current.stMsgFreshPerIteration = true := by decide
+
+/-- The callee-side closure proxy: closure id, argument list, context and stub are per INVOCATION (the id is decoded
+    from the argument at the proxy's own position), a nil result is checked before it is converted, and its recover
+    block reports to `setErr`. -/
+theorem infra_closure_proxy :
+    Skeleton.current.pxClosureIdPerInvocation = true ∧ Skeleton.current.pxCtxIsInvocationCtx = true ∧
+    Skeleton.current.pxRecoverReports = true ∧ Skeleton.current.pxResultChecksValid = true ∧
+    Skeleton.current.cvHandlesInvalid = true := by decide
+
 end Panrpc.Foundation
 
 #print axioms Panrpc.Foundation.infra_utils_call
@@ -69,3 +85,5 @@ end Panrpc.Foundation
 #print axioms Panrpc.Foundation.infra_codec_methods_plain
 #print axioms Panrpc.Foundation.infra_closure_manager
 #print axioms Panrpc.Foundation.infra_loops_and_wrappers
+#print axioms Panrpc.Foundation.infra_stream_decoder
+#print axioms Panrpc.Foundation.infra_closure_proxy
